@@ -106,6 +106,7 @@ var c02Interesting = map[string]bool{
 	"f.Sheet.Delete": true, "f.checked.Delete": true, "sheet.checkRow": true,
 	"sheet.checkSheet": true, "f.Sheet.Store": true, "f.checked.Store": true,
 	"ws.checkSheet": true, "ws.checkRow": true, "f.Sheet.Load": true, "f.workSheetReader": true,
+	"f.Pkg.Delete": true, "f.Relationships.Delete": true, "f.Relationships.Store": true, "f.relsReader": true,
 }
 
 func c02Skeleton(n ast.Node) []string {
